@@ -24,7 +24,7 @@ Section Order.
     | None, None, Some c => rs E c true d lg
     | None, None, None =>
         match e_now E with          (* no clock = the compiler folding constants: the evaluation ends *)
-        | None => (RErr (EBinding name), lg)
+        | None => (RErr (EBinding name), runtime_mark :: lg)   (* ... and is remembered *)
         | Some _ => (ROk (VErr (EBinding name)), lg)
         end
     end.
@@ -66,8 +66,9 @@ Section Order.
         else match env_type E name with
              | Some (VType tn) =>
                  (do vals <- resolve_args rs E d args;
+                  do _ <- note_clock E (asks_clock_ty tn vals);
                   do r <- mlift (construct_type (e_now E) tn vals); mret (None, push r st2)) lg1
-             | _ => (if folding E then mfail ERuntime else mret (None, push (VErr ERuntime) st2)) lg1
+             | _ => (if folding E then mfail_runtime ERuntime else mret (None, push (VErr ERuntime) st2)) lg1
              end
     | (o, lg1) => (mcast o, lg1)
     end.
@@ -87,7 +88,7 @@ Section Order.
   (** ... and while the compiler folds constants it ends the evaluation (the name may be callable at run time) *)
   Corollary not_callable_stops_folding name st lg :
     has_func E name = false -> has_macro E name = false -> env_type E name = None -> folding E = true ->
-    step rs E d (ICall 0) (SVal (VIdent name) :: st) lg = (RErr ERuntime, lg).
+    step rs E d (ICall 0) (SVal (VIdent name) :: st) lg = (RErr ERuntime, runtime_mark :: lg).
   Proof. intros H1 H2 H3 H4. rewrite call_order. cbn. rewrite H1, H2, H3, H4. reflexivity. Qed.
 
   (* ---- fields before methods ------------------------------------------------------ *)
